@@ -177,6 +177,8 @@ def typed_vars(k: int) -> dict:
         'dtd': dt.DayTimeDuration.fromstring(('PT1H', '-PT90M', 'P1D')[k]),
         'ymd': dt.YearMonthDuration.fromstring(('P1Y2M', '-P3M', 'P10Y')[k]),
         'q': dt.QName(('urn:p', '', 'urn:p')[k], ('p:a', 'b', 'p:c')[k]), 'u': dt.AnyURI(('http://x/a b', 'urn:x', 'a/../b')[k]),
+        # sequence-valued variables: the caller's LIST objects (an operator that extends a list in place shows in the snapshot)
+        'seq': [[1, 2], [5], [7, 8, 9]][k], 'eseq': [],
     }
 
 
@@ -190,7 +192,7 @@ def make_context(label: str):
     if label == 'c2':
         root = ET.ElementTree(ET.fromstring(DOCS['d2']))
         return dict(root=root, variables=dict({'x': 1, 'y': 2, 'd': DateTime10.fromstring('2000-01-01T00:00:00')}, **typed_vars(1)),
-                    timezone='+05:00', namespaces={'p': 'urn:p'})
+                    timezone='+05:00', namespaces={'p': 'urn:p'}, focus=True)
     if label == 'c3':
         root = ET.fromstring(DOCS['d1'])   # Element root, other variables, negative timezone
         return dict(root=root, variables=dict({'x': 7, 'y': 3, 'd': DateTime10.fromstring('1999-12-31T23:00:00')}, **typed_vars(2)),
@@ -246,6 +248,12 @@ TEMPLATES = [
     ('2.0', 'string(namespace-uri-for-prefix("p", /*))'), ('2.0', 'for $e in //* return name($e)'),
     ('2.0', 'string(namespace-uri-from-QName(resolve-QName("p:z", /*)))'), ('3.0', '//namespace-node() ! string(.)'),
     ('3.0', 'path((//*)[last()])'), ('3.0', 'count(/*/namespace::p)'),
+    # the caller's outer focus and sequence-valued variables
+    ('2.0', 'position()'), ('2.0', 'last()'), ('2.0', '(position(), last(), name(.))'), ('2.0', 'count(($seq, 3))'),
+    ('2.0', '($seq, $x)'), ('2.0', '($eseq, 1, $seq)'), ('3.0', 'let $z := ($seq, 3) return count($z)'),
+    ('3.0', 'string-join(($seq, $eseq, 4) ! string(.), "-")'), ('3.1', '[($seq, 3)]?1'), ('3.1', 'map{"k": ($seq, 3)}?k'),
+    ('3.1', 'array:size([($eseq, $seq), $seq])'), ('3.0', 'for-each(($seq, 0), function($n) { $n + 1 })'),
+    ('2.0', 'for $i in ($seq, $seq) return $i * 2'), ('2.0', 'sum(($seq, $eseq))'), ('2.0', 'reverse(($seq, 0))'),
 ]
 
 
@@ -578,15 +586,23 @@ def snapshot(ctx):
             tuple(sorted(ctx['namespaces'].items())))
 
 
+def outer_focus(ctx) -> dict:
+    """c2 also passes an outer focus: the root element as context item with position 2 of 5 (position()/last() at top level)"""
+    if ctx.get('focus'):
+        root = ctx['root']
+        return dict(item=root.getroot() if hasattr(root, 'getroot') else root, position=2, size=5)
+    return {}
+
+
 def call_kw(ctx, minimal: bool) -> dict:
     """Keyword arguments of one evaluation.  minimal: only what the caller must pass (the Selector already has the
     namespaces): the API takes different paths depending on which tree-building options are given."""
     if minimal:
-        kw = dict(variables=ctx['variables'])
+        kw = dict(variables=ctx['variables'], **outer_focus(ctx))
         if ctx['timezone'] is not None:
             kw['timezone'] = ctx['timezone']
         return kw
-    return dict(variables=ctx['variables'], timezone=ctx['timezone'], namespaces=ctx['namespaces'])
+    return dict(variables=ctx['variables'], timezone=ctx['timezone'], namespaces=ctx['namespaces'], **outer_focus(ctx))
 
 
 def eval_in(sel_or_tok, mode, ctx):
